@@ -1,7 +1,7 @@
 (* C12 — formatting an executable document and parsing it back.  Statements only. *)
 From GQL.model Require Import Base Utf8 Lexer Format.
 From GQL.model Require Import Ast Parser Prog ParseQuery.
-From GQL.proofs Require Import QuoteRoundtrip NumberGrammar TypeRoundtrip ValueRoundtrip.
+From GQL.proofs Require Import JsonRoundtrip QuoteRoundtrip NumberGrammar TypeRoundtrip ValueRoundtrip TokenStream ParseComplete Sizes FormatTokens FormatRoundtrip.
 
 (* String values survive byte for byte: whatever valid UTF-8 text v a String/BlockString value
    holds, the text Value.String prints for it is read back by the lexer as one String token whose
@@ -96,3 +96,38 @@ Proof.
   - apply so_var. apply Hn. reflexivity.
   - apply (so_word (b "null")). exists 110%N, (b "ull"). repeat split.
 Qed.
+
+(* Whole documents survive.  For every executable document q whose names are names and whose values
+   are values (doc_lok) and which is a document of the grammar (doc_wok, props/C05.v), every indent
+   string made of blanks and tabs, compact or not: the text FormatQueryDocument prints is parsed by
+   parseQuery — the entry point as it is, with the fuel it gives itself — and the document it returns
+   is q with positions erased, block strings read as strings and an absent alias read as the field name
+   (norm_doc).  The proof has two halves that meet in the token sequence flat_doc of the grammar:
+   format_tokens (the printed text is read by the lexer as exactly flat_doc (norm_doc q): no two tokens
+   are glued, none is split, whatever the padding state machine does) and C05's
+   parseQuery_complete (any text with these tokens parses to that document). *)
+Theorem C12_documents_survive : forall d o q,
+  List.Forall ign_char (fo_indent o) -> d F_L1 = false -> doc_lok q -> doc_wok d (norm_doc q) ->
+  exists q', parseQuery d 0 (FormatQueryDocument o q) = POk q' /\ erase_qdoc q' = erase_qdoc (norm_doc q).
+Proof. exact format_parse_entry. Qed.
+Print Assumptions C12_documents_survive.
+
+(* the lexical half on its own: what is printed is read as the tokens of the grammar *)
+Theorem C12_printed_tokens : forall d o, List.Forall ign_char (fo_indent o) -> d F_L1 = false ->
+  forall q, doc_lok q -> toks d (FormatQueryDocument o q) (flat_doc (norm_doc q)).
+Proof. exact format_tokens. Qed.
+Print Assumptions C12_printed_tokens.
+
+(* the hypotheses hold of a document with an alias, arguments of every kind of value, a directive, a
+   variable with a default, an inline fragment and a fragment definition; and the conclusion, computed *)
+Example C12_documents_nonvacuous :
+  let src := b "query Q($v: [Int!] = [1, 2] @d) { a: f(x: $v, y: {k: ""s""}, z: E) @skip(if: true) { ... on T { g } ...F } } fragment F on T { h }" in
+  match parseQuery dev_none 0 src with
+  | POk q =>
+    match parseQuery dev_none 0 (FormatQueryDocument (mkFOpts (b "  ") false false false) q) with
+    | POk q' => erase_qdoc q' = erase_qdoc (norm_doc q) /\ List.length (q_ops q) = 1%nat /\ List.length (q_frags q) = 1%nat
+    | PErr _ => False
+    end
+  | PErr _ => False
+  end.
+Proof. vm_compute. repeat split; reflexivity. Qed.
